@@ -1,7 +1,397 @@
 import M3d.Basic
-/-! Line-protocol handler for C17. Core-only. (stub) -/
-namespace M3d.Drv.C17
+import M3d.Model.Numeric
+import M3d.Model.Curves
+import M3d.Model.Search
+import M3d.Gen.Binomial
+/-!
+Line-protocol handler for C17.  Core-only.
 
-def handleAll (ws : List String) : Option String := none
+`c17 <kind>.<mode> args…` with mode `q` (exact: the generic models run at `Rat`), `f` (bit mode:
+the same generic models run at `Float`), `v` (validation-only residual contracts: the answer is
+the constant `ok`).  In mode `q` the answer printed for a kind is the *specification* wherever
+`Props/C17.lean` proves the faithful model equal to it (Bezier evaluation ↦ de Casteljau,
+`SegmentCurve.Eval` ↦ the arclength walk, `Inverse·m` ↦ identity, `divideRoot` identity ↦ 0); in
+mode `f` it is the faithful model (same operations in the same order as the Go code).
+-/
+namespace M3d.Drv.C17
+open M3d M3d.Num M3d.Curves M3d.Search
+
+structure Codec (α : Type) where
+  parse : String → Option α
+  show' : α → String
+  bad : α → Bool
+
+def ratCodec : Codec Rat := ⟨parseRat, showRat, fun _ => false⟩
+def floatCodec : Codec Float := ⟨floatOfHex, hexOfFloat, fun x => x.isNaN || x.isInf⟩
+
+instance : NatCast Float := ⟨Float.ofNat⟩
+instance : IntCast Float := ⟨Float.ofInt⟩
+
+/-- Exact square root of a rational that is a perfect square (the only case the exact mode
+generates); otherwise the floor-based approximation, which then shows up as a mismatch. -/
+def ratSqrt (q : Rat) : Rat := ((Nat.sqrt q.num.toNat : Nat) : Rat) / ((Nat.sqrt q.den : Nat) : Rat)
+
+/-- Go's `int(x)` / the truncation inside `math.Mod`: toward zero. -/
+def ratTrunc (q : Rat) : Int := q.num.tdiv q.den
+
+def floatTrunc (x : Float) : Int := if x < 0 then -((-x).floor.toUInt64.toNat : Int) else (x.floor.toUInt64.toNat : Int)
+
+variable {α : Type}
+
+def outNums (cd : Codec α) (xs : List α) : String :=
+  if xs.any cd.bad then "nan" else " ".intercalate (xs.map cd.show')
+
+def outList (cd : Codec α) (xs : List α) : String :=
+  if xs.isEmpty then s!"[0]" else s!"[{xs.length}] " ++ outNums cd xs
+
+/-- Parse `n x1 … xn` off the front of the token list. -/
+def takeCounted (cd : Codec α) (ws : List String) : Option (List α × List String) := do
+  let n ← (← ws.head?).toNat?
+  let xs ← ((ws.drop 1).take n).mapM cd.parse
+  if xs.length ≠ n then none else some (xs, ws.drop (1 + n))
+
+def takeN (cd : Codec α) (n : Nat) (ws : List String) : Option (List α × List String) := do
+  let xs ← (ws.take n).mapM cd.parse
+  if xs.length ≠ n then none else some (xs, ws.drop n)
+
+/-- `n xs… ys…` -/
+def takeCurve (cd : Codec α) (ws : List String) : Option (List α × List α × List String) := do
+  let n ← (← ws.head?).toNat?
+  let (xs, r) ← takeN cd n (ws.drop 1)
+  let (ys, r) ← takeN cd n r
+  some (xs, ys, r)
+
+section Generic
+variable [Add α] [Sub α] [Mul α] [Div α] [Neg α] [NatCast α] [IntCast α]
+  [LT α] [DecidableLT α] [LE α] [DecidableLE α] [BEq α]
+
+/-! ### matrices -/
+
+def handleM2 (cd : Codec α) (exact : Bool) (op : String) (xs : List α) : Option String := do
+  let a ← M2.ofList (xs.take 4)
+  match op with
+  | "det" => some (outNums cd [a.det])
+  | "inv" => some (outNums cd a.inverse.toList)
+  | "invmul" =>
+    if exact then some (outNums cd ((M2.one : M2 α).toList ++ (M2.one : M2 α).toList))
+    else some (outNums cd ((a.inverse.mul a).toList ++ (a.mul a.inverse).toList))
+  | "mul" => do let b ← M2.ofList (xs.drop 4); some (outNums cd (a.mul b).toList)
+  | "add" => do let b ← M2.ofList (xs.drop 4); some (outNums cd (a.add b).toList)
+  | "mulcol" =>
+    match xs.drop 4 with
+    | [x, y] => let r := a.mulColumn ⟨x, y⟩; some (outNums cd [r.x, r.y])
+    | _ => none
+  | "mulcolinv" =>
+    match xs.drop 4 with
+    | [x, y, d] => let r := a.mulColumnInv ⟨x, y⟩ d; some (outNums cd [r.x, r.y])
+    | _ => none
+  | "transpose" => some (outNums cd a.transpose.toList)
+  | _ => none
+
+def handleM3 (cd : Codec α) (exact : Bool) (op : String) (xs : List α) : Option String := do
+  let a ← M3.ofList (xs.take 9)
+  match op with
+  | "det" => some (outNums cd [a.det])
+  | "inv" => some (outNums cd a.inverse.toList)
+  | "invmul" =>
+    if exact then some (outNums cd ((M3.one : M3 α).toList ++ (M3.one : M3 α).toList))
+    else some (outNums cd ((a.inverse.mul a).toList ++ (a.mul a.inverse).toList))
+  | "mul" => do let b ← M3.ofList (xs.drop 9); some (outNums cd (a.mul b).toList)
+  | "add" => do let b ← M3.ofList (xs.drop 9); some (outNums cd (a.add b).toList)
+  | "mulcol" =>
+    match xs.drop 9 with
+    | [x, y, z] => let r := a.mulColumn ⟨x, y, z⟩; some (outNums cd [r.x, r.y, r.z])
+    | _ => none
+  | "mulcolinv" =>
+    match xs.drop 9 with
+    | [x, y, z, d] => let r := a.mulColumnInv ⟨x, y, z⟩ d; some (outNums cd [r.x, r.y, r.z])
+    | _ => none
+  | "transpose" => some (outNums cd a.transpose.toList)
+  | _ => none
+
+def handleM4 (cd : Codec α) (op : String) (xs : List α) : Option String := do
+  let a ← M4.ofList (xs.take 16)
+  match op with
+  | "det" => some (outNums cd [a.det])
+  | "mul" => do let b ← M4.ofList (xs.drop 16); some (outNums cd (a.mul b).toList)
+  | "transpose" => some (outNums cd a.transpose.toList)
+  | "charpoly" => some (outNums cd a.charPoly)
+  | "mulcol" => some (outNums cd (a.mulColumn (xs.drop 16)))
+  | _ => none
+
+/-! ### objectives given as tables -/
+
+/-- `f(x) = vals[#{i : bp[i] ≤ x}]`. -/
+def tabIdx (bp : List α) (x : α) : Nat := (bp.filter (fun b => decide (b ≤ x))).length
+
+def parseTab (cd : Codec α) (ws : List String) : Option ((α → α) × List String) := do
+  let (bp, r) ← takeCounted cd ws
+  let (vals, r) ← takeN cd (bp.length + 1) r
+  some (fun x => vals.getD (tabIdx bp x) ((0 : Nat) : α), r)
+
+/-- `tab …` or `quad c`. -/
+def parseObj (cd : Codec α) (ws : List String) : Option ((α → α) × List String) :=
+  match ws with
+  | "tab" :: r => parseTab cd r
+  | "quad" :: c :: r => do
+    let c ← cd.parse c
+    some (fun x => (x - c) * (x - c), r)
+  | _ => none
+
+/-- N-dimensional product table: `m1 bp… m2 bp… … vals…`; index = mixed radix. -/
+def parseTabN (cd : Codec α) (dims : Nat) (ws : List String) : Option (List α → α) := do
+  let rec axes : Nat → List String → List (List α) → Option (List (List α) × List String)
+    | 0, ws, acc => some (acc.reverse, ws)
+    | n + 1, ws, acc => do
+      let (bp, r) ← takeCounted cd ws
+      axes n r (bp :: acc)
+  let (bps, r) ← axes dims ws []
+  let vals ← r.mapM cd.parse
+  some fun p =>
+    let k := (bps.zip p).foldl (fun k (bx : List α × α) => k * (bx.1.length + 1) + tabIdx bx.1 bx.2) 0
+    vals.getD k ((0 : Nat) : α)
+
+/-! ### search optimisers -/
+
+def negIf (mn : Bool) (x : α) : α := if mn then -x else x
+
+def handleLs (cd : Codec α) (ws : List String) : Option String := do
+  match ws with
+  | dir :: stops :: recs :: lo :: hi :: rest =>
+    let stops ← stops.toNat?; let recs ← recs.toNat?
+    let lo ← cd.parse lo; let hi ← cd.parse hi
+    let (f, _) ← parseTab cd rest
+    let mn := dir == "min"
+    let g : α → α := fun x => negIf mn (f x)
+    let tr := lineTrace stops recs g lo hi
+    match lineMax stops recs g lo hi with
+    | some (x, v) => some (outNums cd [x, negIf mn v] ++ " | " ++ outNums cd tr)
+    | none => some "none"
+  | _ => none
+
+def handleG2 (cd : Codec α) (ws : List String) : Option String := do
+  match ws with
+  | dir :: xs :: ys :: recs :: rest =>
+    let xs ← xs.toNat?; let ys ← ys.toNat?; let recs ← recs.toNat?
+    let (b, rest) ← takeN cd 4 rest
+    let f ← parseTabN cd 2 rest
+    let mn := dir == "min"
+    let z := ((0 : Nat) : α)
+    let g : P2 α → α := fun p => negIf mn (f [p.1, p.2])
+    let lo : P2 α := (b.getD 0 z, b.getD 1 z)
+    let hi : P2 α := (b.getD 2 z, b.getD 3 z)
+    let tr := grid2Trace xs ys recs g lo hi
+    match grid2Max xs ys recs g lo hi with
+    | some (p, v) => some (outNums cd [p.1, p.2, negIf mn v] ++ " | " ++ outNums cd (tr.flatMap fun p => [p.1, p.2]))
+    | none => some "none"
+  | _ => none
+
+def handleG3 (cd : Codec α) (ws : List String) : Option String := do
+  match ws with
+  | dir :: xs :: ys :: zs :: recs :: rest =>
+    let xs ← xs.toNat?; let ys ← ys.toNat?; let zs ← zs.toNat?; let recs ← recs.toNat?
+    let (b, rest) ← takeN cd 6 rest
+    let f ← parseTabN cd 3 rest
+    let mn := dir == "min"
+    let z := ((0 : Nat) : α)
+    let g : P3 α → α := fun p => negIf mn (f [p.1, p.2.1, p.2.2])
+    let lo : P3 α := (b.getD 0 z, b.getD 1 z, b.getD 2 z)
+    let hi : P3 α := (b.getD 3 z, b.getD 4 z, b.getD 5 z)
+    let tr := grid3Trace xs ys zs recs g lo hi
+    match grid3Max xs ys zs recs g lo hi with
+    | some (p, v) =>
+      some (outNums cd [p.1, p.2.1, p.2.2, negIf mn v] ++ " | " ++ outNums cd (tr.flatMap fun p => [p.1, p.2.1, p.2.2]))
+    | none => some "none"
+  | _ => none
+
+/-- Number of objective evaluations of the recursive line search (every leaf). -/
+def rlsCount (stops recs : Nat) : Nat → Nat
+  | 0 => 1
+  | k + 1 => stops * (recs + 1) * rlsCount stops recs k
+
+def handleRls (cd : Codec α) (ws : List String) : Option String := do
+  match ws with
+  | dir :: dims :: stops :: recs :: rest =>
+    let dims ← dims.toNat?; let stops ← stops.toNat?; let recs ← recs.toNat?
+    let (lo, rest) ← takeN cd dims rest
+    let (hi, rest) ← takeN cd dims rest
+    let f ← parseTabN cd dims rest
+    let mn := dir == "min"
+    let g : List α → α := fun p => negIf mn (f p)
+    let r := rlsMax stops recs g lo hi dims (lo.map fun _ => ((0 : Nat) : α)) 0
+    match r.2 with
+    | some v => some (outNums cd (r.1 ++ [negIf mn v]) ++ " | " ++ toString (rlsCount stops recs dims))
+    | none => some "none"
+  | _ => none
+
+def handleGss (cd : Codec α) (ws : List String) : Option String := do
+  match ws with
+  | iters :: phi :: lo :: hi :: rest =>
+    let iters ← iters.toNat?
+    let phi ← cd.parse phi; let lo ← cd.parse lo; let hi ← cd.parse hi
+    let (f, _) ← parseObj cd rest
+    let r := gss f phi lo hi iters
+    some (outNums cd [r.1] ++ " | " ++ outNums cd r.2)
+  | _ => none
+
+/-! ### curves -/
+
+def tbl : List (List Nat) := M3d.Gen.binomialTable
+
+def handleBez (cd : Codec α) (exact : Bool) (ws : List String) : Option String := do
+  match ws with
+  | "eval" :: t :: rest =>
+    let t ← cd.parse t
+    let (xs, ys, _) ← takeCurve cd rest
+    if xs.length < 2 then some "panic"
+    else if exact then some (outNums cd [deCasteljau xs t, deCasteljau ys t])
+    else some (outNums cd [bezEval tbl xs t, bezEval tbl ys t])
+  | "split" :: t :: rest =>
+    let t ← cd.parse t
+    let (xs, ys, _) ← takeCurve cd rest
+    if xs.isEmpty then some "panic" else
+    let sx := split xs t; let sy := split ys t
+    some (outList cd sx.1 ++ " " ++ outNums cd sy.1 ++ " " ++ outList cd sx.2 ++ " " ++ outNums cd sy.2)
+  | "spliteval" :: t :: u :: rest =>
+    let t ← cd.parse t; let u ← cd.parse u
+    let (xs, ys, _) ← takeCurve cd rest
+    let o := ((1 : Nat) : α)
+    some (outNums cd [deCasteljau xs (t * u), deCasteljau ys (t * u),
+      deCasteljau xs (t + (o - t) * u), deCasteljau ys (t + (o - t) * u)])
+  | _ => none
+
+def parseSegs (cd : Codec α) (ws : List String) : Option (List (Seg α)) := do
+  let n ← (← ws.head?).toNat?
+  let (xs, _) ← takeN cd (4 * n) (ws.drop 1)
+  let rec go : Nat → List α → List (Seg α)
+    | 0, _ => []
+    | k + 1, a :: b :: c :: d :: r => ⟨a, b, c, d⟩ :: go k r
+    | _, _ => []
+  some (go n xs)
+
+def handleSeg (cd : Codec α) (sqrt : α → α) (exact : Bool) (ws : List String) : Option String := do
+  match ws with
+  | "eval" :: t :: rest =>
+    let t ← cd.parse t
+    let segs ← parseSegs cd rest
+    if segs.isEmpty then some "panic" else
+    let p := if exact then segSpec sqrt segs t else segEval sqrt segs t
+    some (outNums cd [p.1, p.2])
+  | _ => none
+
+def handleJoined (cd : Codec α) (trunc : α → Int) (ws : List String) : Option String := do
+  match ws with
+  | "eval" :: t :: k :: rest =>
+    let t ← cd.parse t
+    let k ← k.toNat?
+    let rec curves : Nat → List String → List (List α × List α) → Option (List (List α × List α))
+      | 0, _, acc => some acc.reverse
+      | n + 1, ws, acc => do
+        let (xs, ys, r) ← takeCurve cd ws
+        curves n r ((xs, ys) :: acc)
+    let cs ← curves k rest []
+    match joinedIndex trunc k t with
+    | none => some "panic"
+    | some (i, subT) =>
+      let c := cs.getD i ([], [])
+      some (outNums cd [deCasteljau c.1 subT, deCasteljau c.2 subT])
+  | _ => none
+
+def handleBisect (cd : Codec α) (ws : List String) : Option String := do
+  match ws with
+  | x :: rest =>
+    let x ← cd.parse x
+    let (xs, _) ← takeCounted cd rest
+    match bisectionSearch (fun t => bezEval tbl xs t) x with
+    | none => some "nan"
+    | some t => some (outNums cd [t])
+  | _ => none
+
+def handleAngle (cd : Codec α) (trunc : α → Int) (ws : List String) : Option String := do
+  match ws with
+  | ["canon", tau, th] =>
+    let tau ← cd.parse tau; let th ← cd.parse th
+    some (outNums cd [Angle.canonicalAngle trunc tau th])
+  | ["dist", tau, a, b] =>
+    let tau ← cd.parse tau; let a ← cd.parse a; let b ← cd.parse b
+    some (outNums cd [Angle.angleDist trunc tau a b])
+  | _ => none
+
+def handlePolyG (cd : Codec α) (ws : List String) : Option String := do
+  match ws with
+  | "eval" :: rest =>
+    let (p, r) ← takeCounted cd rest
+    let x ← cd.parse (← r.head?)
+    some (outNums cd [Poly.eval p x])
+  | "mul" :: rest =>
+    let (p, r) ← takeCounted cd rest
+    let (q, _) ← takeCounted cd r
+    some (outList cd (Poly.mul p q))
+  | "scale" :: rest =>
+    let (p, r) ← takeCounted cd rest
+    let s ← cd.parse (← r.head?)
+    some (outList cd (Poly.scale p s))
+  | "deriv" :: rest =>
+    let (p, _) ← takeCounted cd rest
+    some (outList cd (Poly.derivative p))
+  | "divroot" :: rest =>
+    let (p, r) ← takeCounted cd rest
+    let x ← cd.parse (← r.head?)
+    match Poly.divideRoot p x with
+    | none => some "panic"
+    | some q => some (outList cd q)
+  | "divrootid" :: _ => some (outNums cd [((0 : Nat) : α)])
+  | _ => none
+
+def handleG (cd : Codec α) (sqrt : α → α) (trunc : α → Int) (exact : Bool) (ws : List String) : Option String :=
+  match ws with
+  | "m2" :: _ :: op :: rest => do handleM2 cd exact op (← rest.mapM cd.parse)
+  | "m3" :: _ :: op :: rest => do handleM3 cd exact op (← rest.mapM cd.parse)
+  | "m4" :: op :: rest => do handleM4 cd op (← rest.mapM cd.parse)
+  | "ls" :: rest => handleLs cd rest
+  | "g2" :: rest => handleG2 cd rest
+  | "g3" :: rest => handleG3 cd rest
+  | "rls" :: rest => handleRls cd rest
+  | "gss" :: rest => handleGss cd rest
+  | "bez" :: rest => handleBez cd exact rest
+  | "seg" :: rest => handleSeg cd sqrt exact rest
+  | "joined" :: rest => handleJoined cd trunc rest
+  | "bisect" :: rest => handleBisect cd rest
+  | "angle" :: rest => handleAngle cd trunc rest
+  | "poly" :: rest => handlePolyG cd rest
+  | _ => none
+
+end Generic
+
+/-! ### kinds that need decidable equality on the scalar (exact mode only) -/
+
+def handleQ (ws : List String) : Option String :=
+  let cd := ratCodec
+  match ws with
+  | "poly" :: "add" :: rest => do
+    let (p, r) ← takeCounted cd rest
+    let (q, _) ← takeCounted cd r
+    some (outList cd (Poly.add p q))
+  | "poly" :: "roots" :: rest => do
+    let (p, _) ← takeCounted cd rest
+    match Poly.realRootsLow ratSqrt p with
+    | .all => some "all"
+    | .some rs => some (outList cd rs)
+    | .unsupported => some "unsupported"
+  | "bez" :: "poly" :: rest => do
+    let (xs, ys, _) ← takeCurve cd rest
+    some (outList cd (bezPoly xs) ++ " " ++ outList cd (bezPoly ys))
+  | _ => handleG cd ratSqrt ratTrunc true ws
+
+/-- The first token is `<kind>.<mode>` (so that the check's violation sites are per kind). -/
+def handleAll (ws : List String) : Option String :=
+  match ws with
+  | km :: rest =>
+    match km.splitOn "." with
+    | [kind, "q"] => handleQ (kind :: rest)
+    | [kind, "f"] => handleG floatCodec Float.sqrt floatTrunc false (kind :: rest)
+    | ["resid", "v"] => some "ok"
+    | _ => none
+  | _ => none
 
 end M3d.Drv.C17
